@@ -333,6 +333,16 @@ func (f *Frame) callAsserts(st *State, x *ssa.Call, name string) {
 		actx := f.newCtx(st, f.entry)
 		actx.at = x.Block()
 		actx.atEnd = true
+		// arg0, arg1, ... name the actual arguments of this call (receiver first for methods)
+		cc := x.Common()
+		n := 0
+		if cc.IsInvoke() {
+			actx.names["arg0"] = CV{f.lookup(st, cc.Value), cc.Value.Type()}
+			n = 1
+		}
+		for i, a := range cc.Args {
+			actx.names[fmt.Sprintf("arg%d", i+n)] = CV{f.lookup(st, a), a.Type()}
+		}
 		g, err := actx.evalBoolSafe(ca.E)
 		if err != nil {
 			f.oblige(st, "call-assert", name, "call-site assertion cannot be evaluated: "+err.Error(), x.Pos(), f.vc.B.False(), ca)
@@ -412,6 +422,15 @@ func (f *Frame) contractCall(st *State, x *ssa.Call, c *Contract, callee *ssa.Fu
 			actx := f.newCtx(st, f.entry)
 			actx.at = x.Block()
 			actx.atEnd = true
+			cc := x.Common()
+			n := 0
+			if cc.IsInvoke() {
+				actx.names["arg0"] = CV{f.lookup(st, cc.Value), cc.Value.Type()}
+				n = 1
+			}
+			for i, a := range cc.Args {
+				actx.names[fmt.Sprintf("arg%d", i+n)] = CV{f.lookup(st, a), a.Type()}
+			}
 			g, err := actx.evalBoolSafe(ca.E)
 			if err != nil {
 				vc.note("call-site assumption cannot be evaluated: %v", err)
@@ -450,12 +469,6 @@ func (f *Frame) contractCall(st *State, x *ssa.Call, c *Contract, callee *ssa.Fu
 		vc.assignEntryClasses(a, c, ms)
 	}
 	f.applyModsTagged(st, ms, "cv_")
-	// frame conditions of the form M[lo..hi)
-	for _, a := range c.Assigns {
-		if strings.HasPrefix(a, "M[") {
-			f.assumeMFrame(ctx, pre, st, a)
-		}
-	}
 	// results
 	var rvals []Value
 	for i := 0; i < results.Len(); i++ {
@@ -472,8 +485,18 @@ func (f *Frame) contractCall(st *State, x *ssa.Call, c *Contract, callee *ssa.Fu
 		// ghost results are existential witnesses: fresh symbols constrained by the postconditions
 		ctx.names[g.Name] = CV{VT{B.Fresh(fmt.Sprintf("%s%s_%s.ghost_%s", f.prefix, x.Name(), name, g.Name), SInt)}, nil}
 	}
+	// frame conditions of the form M[lo..hi): bytes outside keep their value (bounds may mention results)
+	for _, a := range c.Assigns {
+		if strings.HasPrefix(a, "M[") {
+			fctx := *ctx
+			fctx.st = st
+			fctx.old = pre
+			f.assumeMFrame(&fctx, pre, st, a)
+		}
+	}
 	ctx.st = st
 	ctx.old = pre
+	ctx.declareRegions = true // region(...) in an assumed postcondition declares memory the callee hands back
 	for _, cl := range c.Ensures {
 		if isUnverified(cl) {
 			continue
@@ -491,6 +514,11 @@ func (f *Frame) contractCall(st *State, x *ssa.Call, c *Contract, callee *ssa.Fu
 	if f.c != nil && f.top {
 		for _, ca := range f.c.PostAssumes[name] {
 			actx := f.newCtx(st, f.entry)
+			actx.at = x.Block()
+			actx.atEnd = true
+			if len(rvals) == 1 {
+				actx.names["result"] = CV{rvals[0], results.At(0).Type()}
+			}
 			g, err := actx.evalBoolSafe(ca.E)
 			if err != nil {
 				vc.note("post-call assumption cannot be evaluated: %v", err)
@@ -540,7 +568,6 @@ func (f *Frame) assumeMFrame(ctx *EvalCtx, pre, post *State, a string) {
 		return
 	}
 	sub := *ctx
-	sub.st = pre
 	lo, e1 := sub.evalIntSafe(loE)
 	hi, e2 := sub.evalIntSafe(hiE)
 	if e1 != nil || e2 != nil {
